@@ -36,8 +36,10 @@ CLAIM = dict(
     note="random.random uniform on [0,1), random.choice/sample uniform and independent draws are assumed (DESIGN 2.3). Equality in law of percolation_based_discrete_SIR "
          "and basic_discrete_SIR (deferred decisions) is proved for every event of the rows and node histories, both return modes (C12_perc_basic_hist_law); the joint law of the transmission lists "
          "(which infector random.choice names) is not compared. Pathwise equality on a common table of coins (C12_perc_sir_pathwise) is also checked dynamically. "
-         "The BFS theorem is proved for test_recovery=None and initial_infecteds given; runs with a user recovery test (BFS times for rules that are functions of the pair) and the rho path "
-         "are covered by the correspondence and the independent oracle only. The draw-by-draw replay of the default-rule program is limited to runs with at most 10 uniform draws "
+         "The BFS theorem is proved for test_recovery=None (C12_dsir_bfs) and WITH a user recovery test for table rules that are functions of the pair (coq/Props/C12rec.v: "
+         "C12rec_dsir_bfs -- same S column / infection times = BFS distances, infectious until the test first succeeds, S+I+R=N, node histories; every fuel: returns iff the stop index is within the fuel), "
+         "initial_infecteds given; rules that depend on the age of the source under a recovery test are covered by Props/C04disc.v / C09disc.v / C10disc.v (every rule, every draw script: what such runs are) and by the correspondence; "
+         "the rho path: Props/C05disc.v (a rho run is a run from an explicit duplicate-free set). The draw-by-draw replay of the default-rule program is limited to runs with at most 10 uniform draws "
          "(the extracted sampler tree is strict in both branches of every Flip). "
          "Domain: simple graphs, duplicate-free disjoint initial sets inside the graph, integer horizons (tmax - tmin integer) for the history clauses.")
 
@@ -267,6 +269,15 @@ def run(run, tier):
         props['log'] = (props.get('log') or '') + ' | ' + xo['log'][-400:]
         run.violation('C12/proof/C12ord', 'Props/C12ord.v no longer checks: %s' % xo['log'][-400:],
                       {'broken': 'coq/Props/C12ord.v', 'log': xo['log']}, no_input=True)
+    # runs WITH a user recovery test (age-independent table rules, any test): Props/C12rec.v joins the obligations
+    xr = C.check_props('C12rec')
+    props['theorems'] = list(props['theorems']) + list(xr['theorems'])
+    props['axioms'] = dict(props['axioms'], **xr['axioms'])
+    if not xr['ok']:
+        props['ok'] = False
+        props['log'] = (props.get('log') or '') + ' | ' + xr['log'][-400:]
+        run.violation('C12/proof/C12rec', 'Props/C12rec.v no longer checks: %s' % xr['log'][-400:],
+                      {'broken': 'coq/Props/C12rec.v', 'log': xr['log']}, no_input=True)
     ok, log = C.build_driver('disc')
     if not ok:
         run.violation('C12/build', 'extracted model does not build: ' + log[-500:], {'log': log[-3000:]}, no_input=True)
